@@ -1,7 +1,15 @@
 """property -> correspondence suites"""
-from .suites import pure, diff, walk, sync, proto, faults, metaonly, wire
+from .suites import pure, diff, walk, sync, proto, faults, metaonly, wire, filt
 
 PROPS = {
+    "C11": {
+        "suites": [sync.SendFilter, filt.FilterC11],
+        "assumptions": ["moby/patternmatcher modelled for the declared fragment"],
+    },
+    "C10": {
+        "suites": [filt.FilterSuite, filt.PatternSuite],
+        "assumptions": ["moby/patternmatcher is modelled for the declared pattern fragment only; patterns outside it are covered by correspondence alone"],
+    },
     "C20": {
         "suites": [wire.Frames, wire.WireValues, wire.WireBytes],
         "assumptions": ["google.golang.org/protobuf is only the other party of a Go-side cross-decode, not modelled"],
